@@ -348,3 +348,23 @@ class Recorder:
         else:
             self.events.append(["end", "article!" + type(art).__name__])
         return self.events, art, None
+
+
+# ------------------------------------------------------------------ process pool that cannot hang
+def pmap(ctx, fn, jobs):
+    """Run fn over jobs in ctx.ncpu forked worker processes, yielding results as they complete.
+    Unlike multiprocessing.Pool this notices a worker that died (segfault in a rebuilt extension,
+    a stray signal): that is a machinery failure, never a silent hang."""
+    import multiprocessing
+    from concurrent.futures import ProcessPoolExecutor, as_completed
+    from concurrent.futures.process import BrokenProcessPool
+    ex = ProcessPoolExecutor(max_workers=ctx.ncpu, mp_context=multiprocessing.get_context("fork"))
+    try:
+        futs = [ex.submit(fn, j) for j in jobs]
+        for f in as_completed(futs):
+            try:
+                yield f.result()
+            except BrokenProcessPool:
+                ctx.machinery("a worker process died while executing %s (killed or crashed)" % fn.__name__)
+    finally:
+        ex.shutdown(wait=True, cancel_futures=True)
